@@ -1,16 +1,40 @@
 """C16 bounded stand-in: every list operation with every index/slice on small lists, against a plain
-list plus the focus spec (spec/focus.py). Also the replay oracle for C16's deductive obligations."""
+list plus the focus spec (spec/focus.py). Also the replay oracle for C16's deductive obligations.
+
+The same exhaustive family runs on every monitored list the statement names ("the monitored lists used for
+container contents and list walkers"):
+  mfl        a bare MonitoredFocusList with recording callbacks
+  pile / columns / gridflow
+             the `.contents` list of a real Pile / Columns / GridFlow (its own callbacks wired by the constructor stay in
+             place: `_contents_modified` / `_invalidate` / the validators run inside every call), children selectable or not
+  sflw       SimpleFocusListWalker, "modified" observed through a connected signal subscriber (with and without a
+             user focus-changed callback)
+  slw        SimpleListWalker (a MonitoredList with a plain focus attribute: list behaviour, the signal, focus in range)
+"""
 from __future__ import annotations
 
-import itertools
+import multiprocessing
+import os
+import warnings
 
 from bounded.common import Check, rng
 from spec.focus import focus_after
 
+import urwid
 from urwid.widget.monitored_list import MonitoredFocusList
 
 
-def _ops(n, rg_idx, steps, quick):
+def _representatives(slices, n):
+    """One raw slice per class of slices that `slice.indices(n)` maps to the same (start, stop, step): the class member is
+    picked by a fixed arithmetic rule so that the representatives keep every raw form (None, negative, out of range)."""
+    classes = {}
+    for sl in slices:
+        classes.setdefault(sl.indices(n), []).append(sl)
+    for (a, b, c), members in classes.items():
+        yield members[(a * 7 + b * 3 + c * 5 + n) % len(members)]
+
+
+def _ops(n, rg_idx, steps, quick, dedupe=False):
     vals = [None, *rg_idx]
     for i in rg_idx:
         yield ("delitem", i)
@@ -18,6 +42,8 @@ def _ops(n, rg_idx, steps, quick):
         yield ("pop", i)
         yield ("insert", i, "N")
     slices = [slice(a, b, c) for a in vals for b in vals for c in steps]
+    if dedupe:
+        slices = list(_representatives(slices, n))
     for sl in slices:
         yield ("delitem", sl)
         for k in (0, 1, 2, 3):
@@ -25,17 +51,20 @@ def _ops(n, rg_idx, steps, quick):
     yield ("append", "N")
     for k in (0, 1, 3):
         yield ("extend", ["N%d" % j for j in range(k)])
+        yield ("iadd", ["N%d" % j for j in range(k)])
     for m in (-1, 0, 1, 2, 3):
         yield ("imul", m)
     for v in list(range(n)) + ["absent"]:
         yield ("remove", v)
     yield ("reverse",)
     yield ("sort",)
+    yield ("sort_perm",)
+    yield ("sort_rev",)
     yield ("clear",)
     yield ("pop_default",)
 
 
-def apply(lst, op):
+def apply(lst, op, key=str):
     k = op[0]
     if k == "delitem":
         del lst[op[1]]
@@ -51,6 +80,8 @@ def apply(lst, op):
         lst.append(op[1])
     elif k == "extend":
         lst.extend(op[1])
+    elif k == "iadd":
+        lst += op[1]
     elif k == "imul":
         lst *= op[1]
     elif k == "remove":
@@ -58,10 +89,19 @@ def apply(lst, op):
     elif k == "reverse":
         lst.reverse()
     elif k == "sort":
-        lst.sort(key=str)
+        lst.sort(key=key)
+    elif k == "sort_perm":
+        lst.sort(key=lambda x: _perm(key(x)))
+    elif k == "sort_rev":
+        lst.sort(key=key, reverse=True)
     elif k == "clear":
         lst.clear()
     return lst
+
+
+def _perm(tag):
+    """A fixed non-monotone permutation of the tags 0..6 (so that sorting moves items, and the focus with them)."""
+    return (tag * 3) % 7 if isinstance(tag, int) else tag
 
 
 def touched(op, n, items):
@@ -83,7 +123,7 @@ def touched(op, n, items):
         return (i, i, 1, 1)
     if k == "append":
         return (n, n, 1, 1)
-    if k == "extend":
+    if k in ("extend", "iadd"):
         return (n, n, 1, len(op[1]))
     if k == "imul":
         return (n, n, 1, n * (op[1] - 1)) if op[1] > 0 else (0, n, 1, 0)
@@ -95,70 +135,405 @@ def touched(op, n, items):
     return None
 
 
-def one(n, f, op):
+# ------------------------------------------------------------------------------------------------ the lists under test
+class _Leaf(urwid.Text):
+    """A child widget with a tag (its initial position, or 100+j for the j-th new item) and a chosen selectability."""
+
+    def __init__(self, tag, sel):
+        super().__init__(str(tag))
+        self.tag = tag
+        self._selectable = sel
+
+    def __repr__(self):
+        return f"<{self.tag}{'s' if self._selectable else 'u'}>"
+
+
+_LEAVES = {}
+
+
+def _leaf(tag, sel):
+    """Leaves carry no per-case state (a container keeps no back reference in a child): one object per (tag, sel)."""
+    w = _LEAVES.get((tag, sel))
+    if w is None:
+        w = _LEAVES[tag, sel] = _Leaf(tag, sel)
+    return w
+
+
+# which of the n initial children are selectable, and whether the new items are
+MASKS = {
+    "all": (lambda i, n: True, False),
+    "none": (lambda i, n: False, False),
+    "none+selnew": (lambda i, n: False, True),
+    "tail": (lambda i, n: i == n - 1, False),
+    "head": (lambda i, n: i == 0, False),
+}
+
+
+class _RecPile(urwid.Pile):
+    def _contents_modified(self):
+        self.rec.append(("container-modified", len(self._contents)))
+        super()._contents_modified()
+
+    def _invalidate(self):
+        self.rec.append(("invalidate",))
+        super()._invalidate()
+
+
+class _RecColumns(urwid.Columns):
+    def _contents_modified(self):
+        self.rec.append(("container-modified", len(self._contents)))
+        super()._contents_modified()
+
+    def _invalidate(self):
+        self.rec.append(("invalidate",))
+        super()._invalidate()
+
+
+class _RecGridFlow(urwid.GridFlow):
+    def _invalidate(self):
+        self.rec.append(("invalidate",))
+        super()._invalidate()
+
+
+def _tap(ml, events):
+    """Record the list's two callbacks WITHOUT replacing what the owner wired: the recorder runs first, then the owner's
+    callback (so an exception of the owner's callback propagates exactly as it would without the recorder)."""
+    own_mod, own_foc = ml._modified, ml._focus_changed
+
+    def modified():
+        events.append(("modified", list(ml)))
+        own_mod()
+
+    def focus_changed(i):
+        events.append(("focus", i))
+        own_foc(i)
+
+    ml.set_modified_callback(modified)
+    ml.set_focus_changed_callback(focus_changed)
+
+
+class Client:
+    """One kind of monitored list: how to build it with n items and focus f, which items to add, how to observe."""
+
+    focus_rule = True  # the statement's focus clauses apply (a MonitoredFocusList)
+    focus_events = True  # focus-changed callback observable
+    variants = ("",)
+    error = None  # the owner's own error for an item it refuses (containers)
+
+    def __init__(self, name):
+        self.name = name
+
+    def key(self, item):
+        return item
+
+    def new(self, j, variant):
+        return "N%d" % j
+
+    def bad_item(self):
+        return None
+
+
+class MflClient(Client):
+    def build(self, n, f, variant):
+        items = list(range(n))
+        ml = MonitoredFocusList(items, focus=f if n else 0)
+        events = []
+        ml.set_modified_callback(lambda: events.append(("modified", list(ml))))
+        ml.set_focus_changed_callback(lambda i: events.append(("focus", i)))
+        return ml, items, events, None
+
+    def key(self, item):
+        return item if isinstance(item, int) else str(item)
+
+
+class ContainerClient(Client):
+    variants = tuple(MASKS)
+
+    def __init__(self, name, cls, error):
+        super().__init__(name)
+        self.cls = cls
+        self.error = error
+
+    def children(self, n, variant):
+        sel, _ = MASKS[variant]
+        return [_leaf(i, sel(i, n)) for i in range(n)]
+
+    def key(self, item):
+        return item[0].tag
+
+    def build(self, n, f, variant):
+        ws = self.children(n, variant)
+        rec = []
+        self.cls.rec = rec  # constructors already invalidate: the class attribute serves until the instance has its own
+        if self.name == "pile":
+            w = self.cls(ws, focus_item=f if n else None)
+        elif self.name == "columns":
+            w = self.cls(ws, focus_column=f if n else None)
+        else:
+            w = self.cls(ws, 3, 1, self.v_sep, "left")
+            if n:
+                w.focus_position = f
+        w.rec = rec
+        ml = w.contents
+        events = []
+        _tap(ml, events)
+        del rec[:]
+        return ml, list(ml), events, w
+
+    def new(self, j, variant):
+        leaf = _leaf(100 + j, MASKS[variant][1])
+        if self.name == "pile":
+            return (leaf, ("pack", None))
+        if self.name == "columns":
+            return (leaf, urwid.Columns.options("given", 3))
+        return (leaf, ("given", 3))
+
+    def bad_item(self):
+        return (_leaf(999, False), ("no-such-sizing", 3))
+
+
+class GridFlowClient(ContainerClient):
+    def __init__(self, name, v_sep):
+        super().__init__(name, _RecGridFlow, urwid.GridFlowError)
+        self.v_sep = v_sep
+
+    def new(self, j, variant):
+        return (_leaf(100 + j, MASKS[variant][1]), ("given", 3))
+
+
+class WalkerClient(Client):
+    def __init__(self, name, cls, focus_list):
+        super().__init__(name)
+        self.cls = cls
+        self.focus_rule = focus_list
+        self.variants = ("signal-only", "signal+focus-callback") if focus_list else ("signal-only",)
+
+    def key(self, item):
+        return item.tag
+
+    def new(self, j, variant):
+        return _leaf(100 + j, True)
+
+    def build(self, n, f, variant):
+        ws = [_leaf(i, True) for i in range(n)]
+        walker = self.cls(ws)
+        if n:
+            walker.focus = f  # plain attribute (SimpleListWalker) / focus setter (SimpleFocusListWalker): no signal
+        events = []
+        if variant == "signal+focus-callback":
+            walker.set_focus_changed_callback(lambda i: events.append(("focus", i)))
+        urwid.connect_signal(walker, "modified", lambda: events.append(("modified", list(walker))))
+        return walker, list(ws), events, None
+
+
+CLIENTS = {
+    "mfl": MflClient("mfl"),
+    "pile": ContainerClient("pile", _RecPile, urwid.PileError),
+    "columns": ContainerClient("columns", _RecColumns, urwid.ColumnsError),
+    "gridflow": GridFlowClient("gridflow", 0),
+    "sflw": WalkerClient("sflw", urwid.SimpleFocusListWalker, True),
+    "slw": WalkerClient("slw", urwid.SimpleListWalker, False),
+}
+
+
+def concretise(op, items, new, bad=None):
+    """The symbolic operation (placeholders "N", "N<j>", "BAD", "absent", tag of an initial item) over this list's items."""
+    k = op[0]
+
+    def item(x):
+        if x == "BAD":
+            return bad
+        return new(int(x[1:]) if len(x) > 1 else 0)
+
+    if k == "setitem":
+        return (k, op[1], [item(x) for x in op[2]] if isinstance(op[2], list) else item(op[2]))
+    if k == "insert":
+        return (k, op[1], item(op[2]))
+    if k == "append":
+        return (k, item(op[1]))
+    if k in ("extend", "iadd"):
+        return (k, [item(x) for x in op[1]])
+    if k == "remove":
+        return (k, items[op[1]] if isinstance(op[1], int) else new(50))
+    return op
+
+
+def _bad_ops(n):
+    """Operations that hand a container an item it refuses: its own error, and the list untouched."""
+    yield ("append", "BAD")
+    yield ("insert", 0, "BAD")
+    yield ("extend", ["N0", "BAD"])
+    yield ("setitem", slice(0, 1), ["BAD"])
+    yield ("setitem", slice(n, n), ["N0", "BAD", "N1"])
+    if n:
+        yield ("setitem", n - 1, "BAD")
+        yield ("setitem", slice(None, None, -1), ["BAD"] * n)
+
+
+class _Detail:
+    """The description of a case, built only when the case fails (`detail | {"why": ...}`) or is asked for."""
+
+    def __init__(self, make):
+        self.make = make
+
+    def __or__(self, more):
+        return self.make() | more
+
+
+def one(n, f, op, client="mfl", variant=None, bad=False):
     """Returns (ok, detail)."""
-    items = list(range(n))
-    ml = MonitoredFocusList(items, focus=f if n else 0)
-    events = []
-    ml.set_modified_callback(lambda: events.append(("modified", list(ml))))
-    ml.set_focus_changed_callback(lambda i: events.append(("focus", i)))
+    cl = CLIENTS[client]
+    variant = cl.variants[0] if variant is None else variant
+    ml, items, events, owner = cl.build(n, f, variant)
+    refused = bad
+    cop = concretise(op, items, lambda j: cl.new(j, variant), cl.bad_item() if bad else None)
     plain = list(items)
+    focus0 = ml.focus
+    stored0 = getattr(ml, "_focus", focus0)
     exc_p = exc_m = None
     try:
-        plain = apply(plain, op)
+        plain = apply(plain, cop, cl.key)
     except Exception as e:  # noqa: BLE001
         exc_p = type(e)
+    if refused:  # the owner's validator refuses the item before anything is changed
+        plain, exc_p = list(items), cl.error
     try:
-        apply(ml, op)
+        apply(ml, cop, cl.key)
     except Exception as e:  # noqa: BLE001
         exc_m = type(e)
-    detail = {"n": n, "focus": f, "op": repr(op), "list": list(ml), "plain": plain, "new_focus": ml.focus, "exc": str(exc_m), "exc_plain": str(exc_p), "events": repr(events)}
+        exc_text = f"{type(e).__name__}: {e}"[:200]
+    else:
+        exc_text = "None"
+    rec = list(owner.rec) if owner is not None else []
+    detail = _Detail(lambda: {"client": client, "variant": variant, "n": n, "focus": f, "op": repr(op), "list": repr(list(ml)), "plain": repr(plain),
+                              "new_focus": repr(ml.focus), "exc": exc_text, "exc_plain": str(exc_p), "events": repr(events), "owner_events": repr(rec)})
     if exc_p is not exc_m:
-        return False, detail | {"why": "different error than a plain list"}
-    if list(ml) != plain:
+        return False, detail | {"why": "different error than a plain list (the owner's error for a refused item)"}
+    if list(ml) != plain or any(x is not y for x, y in zip(ml, plain)):
         return False, detail | {"why": "contents differ from a plain list"}
     if exc_m is not None:
-        ok = ml._focus == (f if n else 0) and not events and list(ml) == items
-        return ok, detail | {"why": "state changed by a failed call"}
+        ok = getattr(ml, "_focus", ml.focus) == stored0 and ml.focus == focus0 and not events and list(ml) == items and not rec
+        return ok, detail if ok else detail | {"why": "state changed / callback run by a failed call"}
     mods = [e for e in events if e[0] == "modified"]
-    changed = plain != items
+    changed = plain != items or any(x is not y for x, y in zip(items, plain))
     if len(mods) > 1 or (changed and len(mods) != 1):
-        return False, detail | {"why": "modified callback count"}
+        return False, detail | {"why": f"modified fired {len(mods)} times for one call"}
     if mods and mods[0][1] != plain:
         return False, detail | {"why": "modified callback before the mutation"}
+    if owner is not None:
+        cm = [e for e in rec if e[0] == "container-modified"]
+        if client in ("pile", "columns"):
+            if len(cm) != len(mods) or (cm and cm[0][1] != len(plain)):
+                return False, detail | {"why": f"the container's modified callback ran {len(cm)} times for one call"}
+            if owner.selectable() != any(w.selectable() for w, _o in plain):
+                return False, detail | {"why": "the container's selectability was not recomputed from the new contents"}
+        elif any(w.selectable() for w, _o in plain) != owner.selectable():
+            return False, detail | {"why": "the container's selectability does not follow the new contents"}
+        if changed and ("invalidate",) not in rec:
+            return False, detail | {"why": "contents changed, container not invalidated"}
+    if not cl.focus_rule:
+        # SimpleListWalker: a MonitoredList beside a plain `focus` attribute -- only "in range" is demanded of it
+        if plain and not (isinstance(ml.focus, int) and 0 <= ml.focus < len(plain)):
+            return False, detail | {"why": "focus out of range"}
+        return True, detail
     if (ml.focus is None) != (len(plain) == 0):
         return False, detail | {"why": "focus None iff empty"}
     if plain and not (0 <= ml.focus < len(plain)):
         return False, detail | {"why": "focus out of range"}
+    if owner is not None:
+        # the owner reads the same index: its focus widget is the item the list designates
+        want_w = plain[ml.focus][0] if plain else None
+        if owner.focus is not want_w:
+            return False, detail | {"why": "the container's focus widget is not the item at the focus index"}
     if n and plain:
-        t = touched(op, n, items)
+        t = touched(cop, n, items)
         if t is not None:
             start, stop, step, k = t
             want = focus_after(n, f, start, stop, step, k)
         elif op[0] == "reverse":
             want = n - 1 - f
         else:  # sort
-            want = plain.index(items[f])
+            want = [i for i, x in enumerate(plain) if x is items[f]][0]
         if ml.focus != want:
             return False, detail | {"why": f"focus should be {want}"}
-        fc = [e for e in events if e[0] == "focus"]
-        if (ml.focus != f) != (len(fc) == 1) or (fc and fc[-1][1] != ml.focus):
-            return False, detail | {"why": "focus-changed callback"}
+        if variant != "signal-only":
+            fc = [e for e in events if e[0] == "focus"]
+            if (ml.focus != f) != (len(fc) == 1) or (fc and fc[-1][1] != ml.focus):
+                return False, detail | {"why": "focus-changed callback"}
     return True, detail
 
 
-def run(tier="quick", seed=0):
-    maxn = 4 if tier == "quick" else 6
-    idx = range(-maxn - 2, maxn + 3)
-    steps = [None, -3, -2, -1, 1, 2, 3]
-    chk = Check("C16/every-op-every-index", "every operation x every int index / slice(start,stop,step) x every focus on lists 0..maxn; real MonitoredFocusList vs plain list + focus spec; distinct = (n, focus, op)", True, f"list length <= {maxn}, indices in [{-maxn-2},{maxn+2}] or None, steps in {steps}, <= 3 new items")
+def _family(chk, client, variant, maxn, steps, with_bad=False, dedupe_above=None):
     for n in range(maxn + 1):
         rg = range(-n - 2, n + 3)
         for f in range(max(n, 1)):
-            for op in _ops(n, rg, steps, tier == "quick"):
-                ok, detail = one(n, f, op)
-                chk.case((n, f, repr(op)), ok, detail, nontrivial=True, sample={"n": n, "focus": f, "op": repr(op)})
+            ops = list(_ops(n, rg, steps, True, dedupe=dedupe_above is not None and n > dedupe_above))
+            if with_bad:
+                ops += list(_bad_ops(n))
+            nbad = len(list(_bad_ops(n))) if with_bad else 0
+            for j, op in enumerate(ops):
+                ok, detail = one(n, f, op, client, variant, bad=j >= len(ops) - nbad)
+                detail = None if ok else detail
+                key = (n, f, repr(op)) if client == "mfl" else (client, variant, n, f, repr(op))
+                chk.case(key, ok, detail, nontrivial=True, sample={"client": client, "variant": variant, "n": n, "focus": f, "op": repr(op)})
+
+
+def _task(arg):
+    client, variant, maxn, steps, with_bad, raw_upto = arg
+    part = Check("part", "")
+    with warnings.catch_warnings():
+        warnings.simplefilter("ignore")
+        _family(part, client, variant, maxn, steps, with_bad=with_bad, dedupe_above=raw_upto)
+    return part.evaluations, len(part.nontrivial), part.failures, part.samples
+
+
+def _spread(chk, tasks):
+    """Run the (client, variant) families of one check in forked workers (their case keys are disjoint) and merge."""
+    procs = max(1, min(8, len(tasks), os.cpu_count() or 1))
+    if procs > 1 and not multiprocessing.current_process().daemon:
+        with multiprocessing.get_context("fork").Pool(procs) as pool:
+            parts = pool.map(_task, tasks, chunksize=1)
+    else:
+        parts = [_task(t) for t in tasks]
+    distinct = 0
+    for ev, nt, failures, samples in parts:
+        chk.evaluations += ev
+        distinct += nt
+        chk.failures.extend(failures[: 20 - len(chk.failures)])
+        chk.samples.extend(samples[: 3 - len(chk.samples)])
+    res = chk.result()
+    res["distinct_nontrivial"] = distinct
+    return res
+
+
+def run(tier="quick", seed=0):
+    with warnings.catch_warnings():
+        warnings.simplefilter("ignore")
+        return _run(tier, seed)
+
+
+def _run(tier, seed):
+    maxn = 4 if tier == "quick" else 6
+    cmaxn = 4 if tier == "quick" else 5
+    raw_upto = 2 if tier == "quick" else 4  # longer lists: one raw slice per class of equal slice.indices(n)
+    steps = [None, -3, -2, -1, 1, 2, 3]
+    chk = Check("C16/every-op-every-index", "every operation x every int index / slice(start,stop,step) x every focus on lists 0..maxn; real MonitoredFocusList vs plain list + focus spec; distinct = (n, focus, op)", True, f"list length <= {maxn}, indices in [{-maxn-2},{maxn+2}] or None, steps in {steps}, <= 3 new items")
+    _family(chk, "mfl", "", maxn, steps)
     out = [chk.result()]
+    bound = (f"list length <= {cmaxn}, indices in [{-cmaxn-2},{cmaxn+2}] or None, steps in {steps}, <= 3 new items, every initial focus (incl. the tail); "
+             f"every raw slice for lists up to {raw_upto}, above that one raw slice per distinct slice.indices(n) (raw indices are resolved by "
+             "MonitoredFocusList / list code shared by all these lists, exercised with every raw slice in C16/every-op-every-index)")
+    cont = Check("C16/container-contents", "the same family on the real contents lists of Pile / Columns / GridFlow, children selectable per mask "
+                 f"{list(MASKS)}: same contents (identity) and same error as a plain list, unchanged on error, focus None iff empty / in range / following its item "
+                 "(spec/focus.py), the list's modified callback exactly once per successful content-changing call (<= 1 otherwise) and after the mutation, never on "
+                 "failure, the container's own callback run as often, its selectability and focus widget those of the new contents, focus-changed exactly when the "
+                 "index changes; a refused item raises the container's error and changes nothing; distinct = (client, mask, n, focus, op)", True, bound)
+    out.append(_spread(cont, [(client, variant, cmaxn, steps, True, raw_upto) for client in ("pile", "columns", "gridflow") for variant in CLIENTS[client].variants]))
+    walk = Check("C16/list-walkers", "the same family on SimpleFocusListWalker (without / with a user focus-changed callback) and SimpleListWalker with a connected "
+                 "'modified' subscriber: same contents and errors as a plain list, unchanged on error, the signal exactly once per successful content-changing call "
+                 "(<= 1 otherwise) and after the mutation, never on failure; SimpleFocusListWalker: the statement's focus rule; SimpleListWalker: focus in range; "
+                 "distinct = (client, variant, n, focus, op)", True, bound)
+    out.append(_spread(walk, [(client, variant, cmaxn, steps, False, raw_upto) for client in ("sflw", "slw") for variant in CLIENTS[client].variants]))
     if tier != "quick":
         r = rng(seed)
         seqc = Check("C16/op-sequences", "random sequences of 3 operations (seeded) on lists of length <= 4: invariants after every step", False, "sequence length 3, 20000 sequences")
@@ -186,11 +561,9 @@ def run(tier="quick", seed=0):
                     break
             seqc.case(repr(ops), ok, {"ops": repr(ops), "list": list(ml), "plain": plain, "focus": ml.focus})
         out.append(seqc.result())
-    return {"checks": out, "bound": chk.bound}
+    return {"checks": out, "bound": chk.bound + "; container contents and list walkers: " + bound}
 
 
 def replay(check, case):
-    import ast
-
-    ok, detail = one(case["n"], case["focus"], ast.literal_eval(case["op"].replace("slice(", "__SL__(")) if False else eval(case["op"]))  # noqa: S307
-    return {"outcome": "not-reproduced" if ok else "confirmed", "detail": detail}
+    ok, detail = one(case["n"], case["focus"], eval(case["op"]), case.get("client", "mfl"), case.get("variant"), bad="BAD" in case["op"])  # noqa: S307
+    return {"outcome": "not-reproduced" if ok else "confirmed", "detail": detail | {}}
